@@ -342,11 +342,6 @@ Proof.
   destruct (is_alloc f'); intros H; inversion H; auto.
 Qed.
 
-Lemma delay_insert_prios : forall r g,
-  map prio (delay_insert g r) = prio g :: map prio r \/
-  True.
-Proof. auto. Qed.
-
 Lemma delay_insert_map : forall r g,
   psorted (prio g :: map prio r) -> map prio (delay_insert g r) = prio g :: map prio r.
 Proof.
